@@ -95,7 +95,6 @@ def _lua_prog(rng, tag, n):
 
 def _mk_game(rng, tag, version, with_label):
     from pico8.game.game import Game
-    from pico8.game.formatter.p8 import P8Formatter
     from pico8.gfx.gfx import Gfx
     from pico8.lua.lua import Lua
     g = Game.make_empty_game(version=version)
@@ -104,13 +103,32 @@ def _mk_game(rng, tag, version, with_label):
         sec._data[:] = rng.randbytes(len(sec._data))
     g.lua = Lua.from_lines([_lua_prog(rng, tag, rng.randrange(14, 40))], version=version)
     g.label = Gfx(data=rng.randbytes(8192), version=version) if with_label else None
-    # restrict sfx/music to what the .p8 text can say: once through the .p8 writer and reader
-    buf = io.BytesIO()
-    with fsx.quiet():
-        P8Formatter.to_file(g, buf)
-        buf.seek(0)
-        g2 = P8Formatter.from_file(buf)
-    return g2
+    # restrict sfx/music to what the .p8 text can say: once through the sections' own line writer and reader
+    from pico8.sfx.sfx import Sfx
+    from pico8.music.music import Music
+    g.sfx = Sfx.from_lines(list(g.sfx.to_lines()), version=version)
+    g.music = Music.from_lines(list(g.music.to_lines()), version=version)
+    return g
+
+
+def _write_p8(path, g):
+    """Assemble a .p8 file from the sections' own line encoders, independently of P8Formatter.to_file
+    (the pool must not depend on the writer whose use by `build` is being checked)."""
+    from pico8.lua.lua import p8scii_to_unicode
+    out = [b'pico-8 cartridge // http://www.pico-8.com\n', b'version %d\n' % g.version, b'__lua__\n']
+    code = _norm_lua(b''.join(g.lua.to_lines()))
+    out.append(p8scii_to_unicode(code).encode('utf-8'))
+    out.append(b'__gfx__\n')
+    out.extend(g.gfx.to_lines())
+    if g.label is not None:
+        out.append(b'__label__\n')
+        out.extend(g.label.to_lines())
+    out.append(b'\n')
+    for name in ('gff', 'map', 'sfx', 'music'):
+        out.append(b'__%s__\n' % name.encode())
+        out.extend(getattr(g, name).to_lines())
+    out.append(b'\n')
+    fsx.write_file(path, b''.join(out))
 
 
 def _contents(g):
@@ -186,8 +204,12 @@ class Pool:
 
     def _cart(self, rng, p8file, name, version, with_label, label_fname=None):
         g = _mk_game(rng, name.split('.')[0], version, with_label)
-        kw = {'label_fname': label_fname} if label_fname else {}
-        p8file.to_file(g, self.path(name), **kw)
+        if name.endswith('.p8.png'):
+            from pico8.game.formatter.p8png import P8PNGFormatter
+            with io.open(self.path(name), 'wb') as fh:
+                P8PNGFormatter.to_file(g, fh, filename=name, label_fname=label_fname)
+        else:
+            _write_p8(self.path(name), g)
         r = p8file.from_file(self.path(name))
         want, got = _contents(g), _contents(r)
         if want != got or r.version != version:
@@ -614,8 +636,15 @@ def monitor_requests(case, obs):
     return ['holds %s %d %d %s' % (_mon_fields(case, obs), failed, 1 if obs['untouched'] else 0, after)]
 
 
-def _expected(case, obs, ctx_exe=None):
-    return None
+def _expected(case, obs):
+    """what the rule prescribes (from the extracted Spec): 'FAIL' | 'OK <secs> <label demand>' | None"""
+    exe = _EXE.get('monitor')
+    if not exe or 'files' not in obs:
+        return None
+    try:
+        return lib.run_driver(exe, ['spec ' + _mon_fields(case, obs)])[0]
+    except Exception:
+        return None
 
 
 def signature(case, obs):
@@ -629,12 +658,22 @@ def signature(case, obs):
             extra = '/uncompressible-lua'
         return 'C13/write-crash/%s/%s%s' % (calls[-1]['raised'], fmt, extra)
     failed = obs['rc'] != 0 or obs['raised']
+    exp = _expected(case, obs)
     if failed and not obs['untouched']:
         return 'C13/failed-but-touched/%s' % fmt
     if failed:
         return 'C13/unexpected-failure/%s/%s' % (obs['raised'] or obs['reason'], fmt)
+    if exp == 'FAIL':
+        return 'C13/unusable-arguments-accepted/%s/%s' % (case.get('err_kind', '?'), fmt)
     if obs['after'] is None:
         return 'C13/out-unreadable/%s' % fmt
+    if exp and exp.startswith('OK '):
+        want = exp.split(' ')[1].split('/')
+        got = [str(x) for x in obs['after']['ids']]
+        wrong = [s for s, a, b in zip(SECS, want, got) if a != b]
+        if wrong:
+            return 'C13/wrong-section/%s/%s/%s' % ('+'.join(wrong), fmt, 'absent' if case['out_state'] == 'absent' else 'exists')
+        return 'C13/label-not-kept/%s' % fmt
     return 'C13/wrong-content/%s/%s' % (fmt, case['out_state'])
 
 
@@ -665,7 +704,23 @@ def describe(case, obs):
 
 
 def minimize(case, obs, answers):
-    return case
+    """drop section arguments one at a time while the same kind of violation remains"""
+    import copy
+    exe = _EXE.get('monitor')
+    if not exe:
+        return case
+    sig = signature(case, obs)
+    cur = copy.deepcopy(case)
+    for s in SECS:
+        if cur['assign'][s][0] == 'unspec':
+            continue
+        trial = copy.deepcopy(cur)
+        trial['assign'][s] = ['unspec']
+        o = _run_one(trial)
+        reqs = monitor_requests(trial, o)
+        if reqs and lib.run_driver(exe, reqs)[0] != 'true' and signature(trial, o) == sig:
+            cur = trial
+    return cur
 
 
 def nontrivial_key(case, obs):
@@ -720,9 +775,21 @@ def _parallel_obs(cases):
         return p.map(_run_one, cases, chunksize=max(1, len(cases) // (n * 8)))
 
 
+_EXE = {}
+
+
 def run_cases(cases, ctx):
     mod = __import__('props.c13', fromlist=['x'])
+    _EXE['monitor'] = ctx.get('monitor_exe')
     try:
+        try:
+            for ps in sorted(set(c['pool_seed'] for c in cases)):
+                _pool(ps)
+        except Exception as e:  # noqa
+            # the carts the cases are made of cannot be produced / do not read back: nothing can be compared
+            return {'evaluations': 0, 'nontrivial': 0, 'rule': RULE, 'samples': [], 'violations': [], 'histogram': {},
+                    'disagreements': [{'case': None, 'summary': 'building the pool of source carts',
+                                       'difference': 'pool: %s: %s' % (type(e).__name__, e)}]}
         obs = _parallel_obs(cases)
         shim = _Shim(mod, {id(c): o for c, o in zip(cases, obs)})
         res = lib.standard_run(shim, cases, ctx)
